@@ -49,6 +49,7 @@ STRENGTHENED = {
     "C14-m6": "missed at first; health-pulse monitor (equity level for accounts holding reduce-only deposits), pulsed inside the reduce-only cell",
     "C17-m5": "missed at first; C17 got a venue engine and judges pass-through deposits against the cap",
     "C19-m5": "missed at first (the workload named a wallet where the instruction wants a token account, so no destination was ever set); workload and monitor corrected, a foreign group's admin tries to re-point the destination",
+    "C19-m6": "missed at first (the rewards mint was always a plain SPL mint); the admin workload now also uses Token-2022 rewards mints with and without a transfer fee",
     "C20-m6": "missed at first; acceptances explainable only by pass-through collateral above the conservative adjusted price are attributed to C20",
     "V4-m2": "caught once every gated instruction (not only deposit) is probed right after the pause expiry",
 }
